@@ -98,7 +98,7 @@ def explore(ctx, cases=None):
     quick = ctx.tier == "quick"
     b = build.build("plain")
     tr_ok, classes = pl.regen(ctx, b)
-    proofs_ok = ctx.lean_props("C01", extra_modules=["Ecpint.Props.C01a", "Ecpint.Props.C01b", "Ecpint.Props.C01c", "Ecpint.Props.C01d", "Ecpint.Props.C01e", "Ecpint.Props.C01f", "Ecpint.Props.C01g"]) if tr_ok else False
+    proofs_ok = ctx.lean_props("C01", extra_modules=["Ecpint.Props.C01a", "Ecpint.Props.C01b", "Ecpint.Props.C01c", "Ecpint.Props.C01d", "Ecpint.Props.C01e", "Ecpint.Props.C01f", "Ecpint.Props.C01g", "Ecpint.Props.C12Cases"] + ["Ecpint.Props.C12Cases.Part%d" % i for i in range(1, 10)]) if tr_ok else False
     drv = pl.pair_driver(b)
     maxl = 5
     try:
